@@ -381,7 +381,40 @@ theorem tsCheck_eq_specTs (o : Oracle) (now : Int) (t : TsCmp) (ev : JTree) :
     | none => rfl
     | some lhs => cases t.mode <;> rfl
 
-theorem typeCheck_eq_specType (c : TypeCheck) (ev : JTree) : typeCheck c ev = specType c ev := rfl
+/-- de-duplicating the listed types (names and aliases) does not change which nodes are accepted -/
+theorem buildFns_any (n : Option JTree) (vs : List Bytes) (used : List TKind) :
+    ((buildFns vs used).any (fun k => kindFn k n) || used.any (fun k => kindFn k n)) =
+    (vs.any (fun v => typeFn v n) || used.any (fun k => kindFn k n)) := by
+  induction vs generalizing used with
+  | nil => simp [buildFns]
+  | cons v vs ih =>
+    simp only [buildFns, List.any_cons]
+    cases hk : kindOf? v with
+    | none =>
+      have hv : typeFn v n = false := by simp [typeFn, hk]
+      simp only [hv, Bool.false_or]; exact ih used
+    | some k =>
+      have hv : typeFn v n = kindFn k n := by simp [typeFn, hk]
+      simp only [hv]
+      by_cases hu : used.contains k = true
+      · simp only [hu, if_true]
+        rw [ih used]
+        cases hkn : kindFn k n
+        · simp
+        · have hany : used.any (fun k => kindFn k n) = true :=
+            List.any_eq_true.2 ⟨k, by simpa using hu, hkn⟩
+          simp [hany]
+      · have hu' : used.contains k = false := by simpa using hu
+        simp only [hu', Bool.false_eq_true, if_false]
+        have := ih (k :: used)
+        simp only [List.any_cons] at this ⊢
+        cases hkn : kindFn k n
+        · simpa [hkn] using this
+        · simp
+
+theorem typeCheck_eq_specType (c : TypeCheck) (ev : JTree) : typeCheck c ev = specType c ev := by
+  have := buildFns_any (dig ev c.path) c.values []
+  simpa [typeCheck, specType] using this
 
 /-! ## the hypothesis of the partial theorem, over a whole tree -/
 
